@@ -21,6 +21,7 @@ mod c07;
 mod c16;
 mod c14;
 mod c20;
+mod c17;
 
 use common::Tier;
 
@@ -52,6 +53,7 @@ fn main() {
         "C16" => c16::run(tier),
         "C14" => c14::run(tier),
         "C20" => c20::run(tier),
+        "C17" => c17::run(tier),
         "parse" => {
             use std::convert::TryFrom;
             let t = &args[2];
